@@ -57,12 +57,46 @@ def expand : Nat → List Ctl → List Ctl → List Ctl
 /-- every control state reachable from an entry state (both outcomes of every statement) -/
 def reach : List Ctl := expand 2000 entries []
 
-#eval reach.length
-
 theorem reach_closed :
     reach.all (fun c => reach.any (Ctl.beq (nextCtl P c true)) && reach.any (Ctl.beq (nextCtl P c false))) = true := by
   decide +kernel
 
 theorem reach_entries : entries.all (fun c => reach.any (Ctl.beq c)) = true := by decide +kernel
+
+
+theorem mem_of_any_beq {c : Ctl} {l : List Ctl} (h : l.any (Ctl.beq c) = true) : c ∈ l := by
+  rw [List.any_eq_true] at h
+  obtain ⟨c', hm, hb⟩ := h
+  rw [Ctl.beq_eq hb]
+  exact hm
+
+theorem reach_next {c : Ctl} (h : c ∈ reach) (b : Bool) : nextCtl P c b ∈ reach := by
+  have := List.all_eq_true.mp reach_closed c h
+  simp only [Bool.and_eq_true] at this
+  cases b
+  · exact mem_of_any_beq this.2
+  · exact mem_of_any_beq this.1
+
+theorem reach_idle : Ctl.idle ∈ reach := by
+  have := List.all_eq_true.mp reach_entries Ctl.idle (by simp [entries])
+  exact mem_of_any_beq this
+
+theorem entry_mem (c : ApiCall) : Ctl.entry P c ∈ entries := by
+  cases c <;> simp [entries, Ctl.entry, ApiCall.entry]
+
+theorem reach_entry (c : ApiCall) : Ctl.entry P c ∈ reach :=
+  mem_of_any_beq (List.all_eq_true.mp reach_entries _ (entry_mem c))
+
+/-- a decided fact about the entry states holds of the entry state of every call -/
+theorem entry_fact {Q : Ctl → Bool} (h : entries.all Q = true) (c : ApiCall) : Q (Ctl.entry P c) = true :=
+  List.all_eq_true.mp h _ (entry_mem c)
+
+theorem effect_ctl {sh sh' : Shared} {t : Tid} {th th0 : Thread} {b : Bool}
+    (h : effect sh t th = some (b, sh', th0)) : th0.ctl = th.ctl := by
+  unfold effect at h
+  split at h <;> (try split at h) <;> (try split at h) <;> (try split at h) <;> simp at h
+  all_goals first
+    | (obtain ⟨_, _, rfl⟩ := h; rfl)
+    | (obtain ⟨_, _, _, rfl⟩ := h; rfl)
 
 end Ro.Kernel
